@@ -157,7 +157,7 @@ class Ctx:
         return files
 
     # -- running -----------------------------------------------------------------
-    def p2a_args(self, key, outd, fmt=None, asm=None, rel_to=None):
+    def p2a_args(self, key, outd, fmt=None, asm=None, rel_to=None, mode="normal"):
         wl = self.case[key]
         d, a, p = self.stage(key)
         a = asm or a
@@ -166,6 +166,12 @@ class Ctx:
         if rel_to:
             a, p, o = (os.path.relpath(x, rel_to) for x in (a, p, o))
         args = ["-a", a, "-p", p, "-o", o]
+        if mode == "nolog":
+            args.append("--no-write-log")
+        elif mode == "stdout":
+            args = ["-a", a, "-p", p]  # prints the assemblies to STDOUT, writes no files
+        elif mode == "debug":
+            args += ["--log-level", "DEBUG"]
         if wl.get("prefix") and wl["prefix"] != "SUPER_":
             args += ["-c", wl["prefix"]]
         return args
@@ -194,10 +200,10 @@ class Ctx:
         w.advance(1)
         return box["r"], w.trace[start:]
 
-    def run_p2a(self, key, fmt=None, asm=None, cwd=None, end=True):
+    def run_p2a(self, key, fmt=None, asm=None, cwd=None, end=True, mode="normal"):
         outd = self.new_out()
         ind = self.stage(key)[0]
-        args = self.p2a_args(key, outd, fmt=fmt, asm=asm, rel_to=cwd)
+        args = self.p2a_args(key, outd, fmt=fmt, asm=asm, rel_to=cwd, mode=mode)
         r, trace = self.run_inproc(self.p2a.cli, args, "pretext-to-asm", cwd=cwd, end=end)
         oc = Outcome(r.code, self.collect(outd, ind), r.stderr)
         oc.trace = trace
@@ -407,6 +413,9 @@ class Ctx:
         steps = rng.choice([["w2", "w1"], ["w2", "af", "w1"], ["w1", "w2", "w1"], ["af", "w2", "w2", "w1"], ["w2", "w1", "af", "w1"]])
         box = {"last": None}
         afmt = [rng.choice(["tpf", "agp"]) for _ in steps]
+        # invocations before the last one may log elsewhere or not at all
+        modes = [rng.choice(["normal", "normal", "nolog", "stdout", "debug"]) for _ in steps]
+        modes[-1] = "normal"
         for key in ("w1", "w2"):
             self.stage(key)
 
@@ -418,8 +427,8 @@ class Ctx:
                     if st == "af":
                         oc = self.run_asmformat("w2", afmt[k], end=False)
                     else:
-                        oc = self.run_p2a(st, end=False)
-                        if st == "w1":
+                        oc = self.run_p2a(st, end=False, mode=modes[k])
+                        if st == "w1" and modes[k] == "normal":
                             box["last"] = oc
                     done.append((st, oc))
             finally:
@@ -427,7 +436,7 @@ class Ctx:
 
         self.world.run_solo(whole_history, name="history")
         last = box["last"]
-        ok = self.compare("history", ref, last, f"after the in-process invocations {steps[:-1]} vs a fresh process")
+        ok = self.compare("history", ref, last, f"after the in-process invocations {list(zip(steps, modes))[:-1]} vs a fresh process")
         if ok:
             for st, oc in done:
                 now = Outcome(oc.code, self.collect(oc.outd, oc.ind))
